@@ -1,4 +1,4 @@
 SPECIFICATION Spec
 CONSTANTS Names <- MCNames
-INVARIANTS Tiling Acyclic Capacity NonEmpty
+INVARIANTS Tiling Acyclic Capacity NonEmpty ConversionsPossible
 CHECK_DEADLOCK FALSE
